@@ -101,7 +101,7 @@ def _vstack(arrs):
 
 @rule(
     "GEN-TABLES",
-    ["C03", "C02", "C08", "C05", "C19"],
+    ["C03", "C02", "C08", "C05", "C19", "C04"],
     "build_optimized_tables interpreted on sample modified terminals with a table oracle that records which points were tabulated: "
     "permutation slices are the tables at the reference-facet symmetries in the order N = 2*rotations + reflections exactly where "
     "facets lack a global orientation; point / entity / permutation axes are collapsed exactly when constant; the \"-\" dof shift "
@@ -118,8 +118,8 @@ def gen_tables(repo, res):
     loc = m.line(f.node)
     _fail = res.fail
 
-    def fail_tables(key, msg, loc_=""):  # table content / flags: not a matter of the packing contract (C05)
-        _fail(key, msg, loc_, props=("C02", "C03", "C08"))
+    def fail_tables(key, msg, loc_=""):  # table content / flags: not a matter of the packing contract (C05); expression scenarios: C04
+        _fail(key, msg, loc_, props=("C04", "C08") if " expression " in f" {key} " else ("C02", "C03", "C08"))
 
     def cell(name, tdim):
         return Node("Cell", cellname=name, topological_dimension=tdim)
